@@ -481,7 +481,7 @@ def _parse_angle(param_str):
                     "'": u.arcmin,
                     'd': u.deg,
                     'r': u.rad}
-    if param_str[-1] not in string.digits:
+    if param_str[-1] in unit_mapping:
         unit = unit_mapping[param_str[-1]]
         return u.Quantity(float(param_str[:-1]), unit=unit)
     else:
@@ -687,7 +687,8 @@ def _find_text_delim_idx(region_str):
     Find the indices of the DS9 text field delimiters ({}, '', or "") in
     a string.
     """
-    pattern = re.compile(r'(text\s*=\s*[{\'"])')
+    # text and tag values are free-form text; keys are case-insensitive
+    pattern = re.compile(r'((?:text|tag)\s*=\s*[{\'"])', re.IGNORECASE)
     idx0 = []
     delim = []
     start_idx = []
